@@ -624,6 +624,20 @@ func runCase(w *tr.Writer, seed uint64, idx int, focus string) {
 				quiet()
 			}
 		}
+		if cfg.scenario == "writeto-partial-wrapped" && len(peers) == 1 {
+			// the common part sent 100 bytes (left unconsumed); 700 more make the leftover 800, the handler
+			// discards 700 of them, 500 more wrap the inbound ring, then WriteTo into a sink that fails
+			// inside the first (upper) segment
+			p := peers[0]
+			for _, sz := range []int{700, 500, 10} {
+				seq := rec.seq()
+				data := rnd.Bytes(sz)
+				n, _ := p.conn.Write(data)
+				p.sent = append(p.sent, data[:n]...)
+				woken(seq, 500*time.Millisecond)
+				quiet()
+			}
+		}
 		if cfg.scenario == "async-flood" && len(peers) > 0 {
 			// 1500 asynchronous writes are issued while the loop is busy inside OnTraffic
 			if ci := h.byCid(peers[0].cid); ci != nil && ci.c != nil {
